@@ -34,12 +34,15 @@ TAGS = {
     21: 'internal: guard true but translate differs from the reference (contradicts translate_sound)',
 }
 GUARD_FINDING = {201: 'C01-BLOCK-NESTED-DROPPED', 202: 'C01-BLOCK-ASSIGNED-TWICE',
-                 203: 'C01-BLOCK-STALE-READ', 204: 'C01-BLOCK-BRANCH-COVER'}
+                 203: 'C01-BLOCK-STALE-READ', 204: 'C01-BLOCK-BRANCH-COVER', 205: 'C01-MOD-SIGN'}
+GUARDS = (201, 202, 203, 204, 205)
 
 # reference meaning of the intrinsic functions: name -> (arity, Interp id) ; synonyms as in the grammar
 FN1 = {'EXP': 1, 'DEXP': 1, 'LOG': 2, 'ALOG': 2, 'DLOG': 2, 'SQRT': 3, 'DSQRT': 3, 'ABS': 4, 'DABS': 4,
        'INT': 15, 'DINT': 15, 'SIN': 9, 'DSIN': 9, 'COS': 10, 'DCOS': 10, 'TAN': 11, 'ASIN': 12, 'ATAN': 14}
-PROTECTED = ['PEXP', 'PSQRT', 'PNG', 'PHE', 'PNP', 'PZR']
+# PNP/PZR are modelled in ref_expr but not generated: their constant SMALLZ = 2.8E-103 is absorbed by sympy's
+# floating-point folding of `literal + SMALLZ` at read time (as NONMEM's double precision would)
+PROTECTED = ['PEXP', 'PSQRT', 'PNG', 'PHE']
 SMALLZ = '(28#' + '1' + '0' * 104 + ')%Q'     # 2.8E-103 exactly
 
 
@@ -319,12 +322,12 @@ class Gen:
             return ['bin', '**', base, ['num', rng.choice(['2', '3'])]]
         return ['bin', k, self.rat(syms, depth - 1), self.rat(syms, depth - 1)]
 
-    def fnarg(self, syms):
+    def fnarg(self, syms, compound=False):
         """arguments of transcendental functions always contain a symbol and no numeric factor"""
         rng = self.rng
         a = ['sym', rng.choice(LEAVES + syms)] if syms and rng.random() < 0.4 else self.leaf()
         r = rng.random()
-        if r < 0.6:
+        if r < 0.6 and not compound:
             return a
         b = self.leaf()
         while b == a:        # a+a folds to 2*a, sqrt(2*a) to sqrt(2)*sqrt(a): outside the exact interpretation
@@ -336,9 +339,15 @@ class Gen:
         if depth == 0 or rng.random() < 0.3:
             return self.atom(syms)
         r = rng.random()
+        if r < 0.03:
+            return ['fn', rng.choice(['MOD', 'MOD', 'DMOD']), self.rat(syms, 1), ['num', rng.choice(['2', '3'])]]
         if r < 0.22:
             name = rng.choice(list(FN1) + PROTECTED)
-            return ['fn', name, self.fnarg(syms)]
+            # protected functions expand to a Piecewise which sympy folds into the enclosing Piecewise with a
+            # conjunction of conditions; evaluation of conjunctions is strict in Base/Expr.v, so their arguments
+            # are kept always-defined (leaves only)
+            # sqrt(a)*a is rewritten to a**(3/2): SQRT only of a compound argument
+            return ['fn', name, self.fnarg([] if name in PROTECTED else syms, compound=name in ('SQRT', 'DSQRT', 'PSQRT'))]
         if r < 0.8:
             k = rng.choice(['+', '-', '*'])
             return ['bin', k, self.expr(syms, depth - 1), self.expr(syms, depth - 1)]
@@ -468,6 +477,25 @@ class Gen:
         return {'prog': prog, 'layout': rng.randrange(10 ** 9), 'mode': mode}
 
 
+def exhaustive_blocks():
+    """every program  pre ; IF (c1) THEN b1 [ELSEIF (c2) THEN b2] [ELSE e] ENDIF ; Y  with bodies over the four
+    assignments A=1, A=A+1, B=2, B=A (b1: length <= 2, b2 and e: length <= 1) and three prefixes"""
+    import itertools
+    A, B = ['sym', 'A'], ['sym', 'B']
+    asg = [['asg', 'A', ['num', '1']], ['asg', 'A', ['bin', '+', A, ['num', '1']]], ['asg', 'B', ['num', '2']], ['asg', 'B', A]]
+    bodies2 = [[]] + [[a] for a in asg] + [[a, b] for a in asg for b in asg]
+    bodies1 = [[]] + [[a] for a in asg]
+    c1 = ['rel', 'gt', ['sym', 'THETA(1)'], ['num', '1']]
+    c2 = ['rel', 'gt', ['sym', 'THETA(2)'], ['num', '1']]
+    pres = [[], [['asg', 'A', ['num', '5']]], [['asg', 'A', ['num', '5']], ['asg', 'B', ['num', '6']]]]
+    y = ['asg', 'Y', ['bin', '+', A, ['bin', '+', B, ['sym', 'EPS(1)']]]]
+    pts = [{'THETA(1)': a, 'THETA(2)': b} for a in ('2', '1/2') for b in ('2', '1/2')]
+    for pre, b1, els in itertools.product(pres, bodies2, [None] + bodies1):
+        for b2 in [None] + bodies1:
+            brs = [[c1, b1]] + ([[c2, b2]] if b2 is not None else [])
+            yield {'prog': pre + [['blk', brs, els], y], 'noise': False, 'points': pts, 'mode': 'exhaustive'}
+
+
 def count_stmts(stmts):
     n = 0
     for s in stmts:
@@ -535,9 +563,14 @@ def observe(spec, prng, mutate=None):
     if mutate:
         impl = mutate(impl)
     body = ref_body(spec['prog'], names)
-    envs = ct.lst([sc.env(p, names) for p in gen_points(prng)])
+    pts = gen_points(prng)
+    if spec.get('points'):
+        pts = [{k: F(v) for k, v in p.items()} for p in spec['points']] + pts[:2]
+        pts = [dict({n: F(1) for n in LEAVES + ['EPS(1)']}, **p) for p in pts]
+    envs = ct.lst([sc.env(p, names) for p in pts])
     term = "(mkCase " + body + "\n  " + ct.lst(impl) + "\n  " + envs + ")"
-    info = {'code': code, 'n': count_stmts(spec['prog']), 'depth': depth_of(spec['prog']), 'nimpl': len(impl)}
+    info = {'code': code, 'n': count_stmts(spec['prog']), 'depth': depth_of(spec['prog']), 'nimpl': len(impl),
+            'points': [{k: str(v) for k, v in p.items()} for p in pts]}
     return term, info
 
 
@@ -569,7 +602,7 @@ def run_specs(ctx, specs, label, mutate=None):
 def classify(ctx, spec, tags, info):
     tags = set(tags)
     corr = sorted(t for t in tags if t in (1, 2))
-    false_guards = [g for g in (201, 202, 203, 204) if g in tags]
+    false_guards = [g for g in GUARDS if g in tags]
     status = 'ok'
     if 21 in tags:
         ctx.broken.append('C01/Check.v internal inconsistency (tag 21) on ' + json.dumps(spec['prog']))
@@ -583,7 +616,7 @@ def classify(ctx, spec, tags, info):
                 ctx.coverage['known_hits'][fid] += 1
             status = 'known'
         else:
-            ctx.violation(TAGS[11], {'spec': spec, 'code': info['code'], 'tags': sorted(tags),
+            ctx.violation(TAGS[11], {'spec': dict(spec, points=info['points'], code=info['code']), 'code': info['code'], 'tags': sorted(tags),
                                      'tag_meaning': TAGS[11], 'kind': 'code'})
             return 'violation'
     if corr:
@@ -627,9 +660,17 @@ def run_code(ctx):
     reg = sorted((VERIF / 'regress' / 'C01').glob('code-*.json'))
     specs = [json.loads(p.read_text()) for p in reg]
     nreg = len(specs)
-    n = 320 if ctx.tier == 'quick' else 5000
+    n = 320 if ctx.tier == 'quick' else 3000
     g = Gen(ctx.rng)
-    specs += [g.program() for _ in range(n)]
+    if ctx.tier != 'quick':
+        exh = list(exhaustive_blocks())
+        specs += exh
+        nreg += len(exh)
+        ctx.coverage['exhaustive_block_programs'] = len(exh)
+    while len(specs) < nreg + n:
+        sp = g.program()
+        if count_stmts(sp['prog']) <= 14:
+            specs.append(sp)
     kept, verdicts, infos, skipped = run_specs(ctx, specs, 'code')
     stats = {'ok': 0, 'known': 0, 'violation': 0, 'broken': 0}
     for spec, tags, info in zip(kept, verdicts, infos):
@@ -648,7 +689,8 @@ def run_code(ctx):
         'statements_hist': {str(k): sum(1 for i in infos if i['n'] == k) for k in sorted({i['n'] for i in infos})},
         'nesting_hist': {str(k): sum(1 for i in infos if i['depth'] == k) for k in sorted({i['depth'] for i in infos})},
         'mode': {m: sum(1 for s in kept if s.get('mode') == m) for m in ('guarded', 'free')},
-        'guard_true': sum(1 for v in verdicts if not any(t in v for t in (201, 202, 203, 204))),
+        'guard_true': sum(1 for v in verdicts if not any(t in v for t in GUARDS)),
+        'g_no_mod_false': sum(1 for v in verdicts if 205 in v),
         'g_flat_false': sum(1 for v in verdicts if 201 in v),
         'g_once_false': sum(1 for v in verdicts if 202 in v),
         'g_cond_fresh_false': sum(1 for v in verdicts if 203 in v),
@@ -660,6 +702,677 @@ def run_code(ctx):
         'with_logical_if': sum(1 for s in kept if any(st[0] == 'if' for st in s['prog'])),
     }
     cov['samples'] += [{'code': i['code'], 'tags': v} for i, v in list(zip(infos, verdicts))[nreg:nreg + 3]]
+
+
+# ====================================================================================================
+# ADVAN / TRANS tables: translator + regenerated obligations
+# ====================================================================================================
+TRANS56 = 'C01-TRANS56-UNDEFINED'
+
+
+def coqc_gen(path, gendir):
+    from harness.lib import core
+    return core.coqc_file(path, extra_q=[(gendir, 'C01Gen')])
+
+
+def run_advan(ctx):
+    from harness.lib import core
+    from harness.props import c01_tadvan as T
+    gendir = ctx.rundir / 'gen'
+    gendir.mkdir(parents=True, exist_ok=True)
+    pub = core.BUILD / 'gen' / 'C01'
+    pub.mkdir(parents=True, exist_ok=True)
+    cov = ctx.coverage
+    try:
+        tables, structs, skipped, sha = T.translate(core.REPO)
+    except T.Refuse as e:
+        print(f'TRANSLATOR-REFUSED T-advan: {e}', flush=True)
+        ctx.broken.append(f'TRANSLATOR-REFUSED T-advan (advan.py has a shape the translator does not know): {e}')
+        return
+    cov['translator_sha'] = {'T-advan': sha}
+    cov['translator_skipped'] = skipped
+    (gendir / 'AdvanTables.v').write_text(T.emit_tables(tables, structs, sha))
+    rc, out = coqc_gen(gendir / 'AdvanTables.v', gendir)
+    if rc != 0:
+        ctx.broken.append('regenerated AdvanTables.v does not compile: ' + out[-400:])
+        return
+    expect = set()
+    if ctx.open_finding(TRANS56):
+        expect = {(a, ti) for a in T.VALID for ti in T.VALID[a] if ti in (5, 6)}
+    text, names = T.emit_obligations(expect)
+    (gendir / 'AdvanObligations.v').write_text(text)
+    for f in ('AdvanTables.v', 'AdvanObligations.v'):
+        (pub / f).write_text((gendir / f).read_text())
+    ctx.obligations += len(names)
+    rc, out = coqc_gen(gendir / 'AdvanObligations.v', gendir)
+    if rc == 0:
+        # assumptions of the regenerated theorems
+        f = gendir / 'assum.v'
+        f.write_text('From C01Gen Require Import AdvanObligations.\n' + '\n'.join(f'Print Assumptions {n}.' for n in names) + '\n')
+        rc2, out2 = coqc_gen(f, gendir)
+        closed = out2.count('Closed under the global context')
+        if rc2 != 0 or closed != len(names):
+            ctx.broken.append(f'regenerated obligations: Print Assumptions not closed ({closed}/{len(names)})')
+        ctx.discharged += closed
+        cov['regenerated_obligations'] = names
+        if expect:
+            ctx.known(TRANS56)
+        return
+    # ---- something no longer holds: find out what, entry by entry
+    ctx.log('regenerated obligations failed; checking entry by entry')
+    bad, not_reproduced = [], []
+    for a in sorted(T.VALID, key=lambda x: int(x[1:])):
+        for ti in T.VALID[a]:
+            f = gendir / f'ob_{a}_T{ti}.v'
+            f.write_text(T.single_obligation(a, ti, True))
+            rc, _ = coqc_gen(f, gendir)
+            if rc == 0:
+                ctx.discharged += 1
+                if (a, ti) in expect:
+                    not_reproduced.append(f'{a}/TRANS{ti}')
+                continue
+            if (a, ti) in expect:
+                f.write_text(T.single_obligation(a, ti, False))
+                rc, _ = coqc_gen(f, gendir)
+                if rc == 0:
+                    ctx.discharged += 1
+                    continue
+            bad.append((a, ti))
+    if expect and len(not_reproduced) < len(expect):
+        ctx.known(TRANS56)
+    if not_reproduced:
+        ctx.notes.append(f'finding_not_reproduced {TRANS56} for {not_reproduced}')
+    f = gendir / 'ob_struct.v'
+    f.write_text(T.HEADER + 'Theorem advan_struct_correct : forall a, struct_ok (advan_struct a) (nonmem_struct a) = true.\n'
+                 'Proof. intros a. destruct a; vm_compute; reflexivity. Qed.\n')
+    rc, _ = coqc_gen(f, gendir)
+    if rc == 0:
+        ctx.discharged += 1
+    else:
+        ctx.violation('advan.py: compartment numbering / ALAGn,Fn index / default dose or observation compartment of an '
+                      'ADVAN differs from NONMEM (advan_struct_correct no longer holds)',
+                      {'kind': 'advan-struct', 'structs': {k: {kk: str(vv) for kk, vv in v.items()} for k, v in structs.items()}})
+    # ---- failing numeric input for each bad entry
+    for a, ti in bad:
+        found = None
+        for k in range(12):
+            vals = [ctx.rng.choice([2, 3, 5, 7, 11, 13, F(1, 2), F(3, 2), 4, 9]) for _ in T.INPUTS[(a, ti)]]
+            m = '[' + '; '.join(f'(s_{n}, {ct.q(v)})' for n, v in zip(T.INPUTS[(a, ti)], vals)) + ']'
+            f = gendir / 'search.v'
+            f.write_text(T.HEADER + 'From PV Require Import C01.Check.\n'
+                         f'Eval vm_compute in (map (fun m => if flows_agree (env_of m) (advan_flows {a} T{ti}) (nonmem_flows {a} T{ti}) then 0 else 1) [{m}]).\n')
+            rc, out = coqc_gen(f, gendir)
+            if rc == 0 and core.parse_nested_nat_lists(out) == [1]:
+                found = dict(zip(T.INPUTS[(a, ti)], [str(v) for v in vals]))
+                break
+        what = (f'advan.py: rate constants of ADV{a[1:]} TRANS{ti} differ from NONMEM\'s definition '
+                f'(regenerated obligation flows_{a}_T{ti} no longer holds)')
+        if found:
+            ctx.violation(what, {'kind': 'advan-table', 'advan': a, 'trans': ti, 'inputs': found,
+                                 'code_flows': T.flows_of(structs[a], tables, f'TRANS{ti}')})
+        else:
+            ctx.broken.append(what)
+
+
+# ====================================================================================================
+# real control streams for every ADVAN / TRANS
+# ====================================================================================================
+ADV_IMPORTS = IMPORTS
+ADVAN_NAME = {'A1': 'ADVAN1', 'A2': 'ADVAN2', 'A3': 'ADVAN3', 'A4': 'ADVAN4', 'A10': 'ADVAN10', 'A11': 'ADVAN11', 'A12': 'ADVAN12'}
+NCOMP = {'A1': 1, 'A2': 2, 'A3': 2, 'A4': 3, 'A10': 1, 'A11': 3, 'A12': 4}
+OBSNO = {'A1': 1, 'A2': 2, 'A3': 1, 'A4': 2, 'A10': 1, 'A11': 1, 'A12': 2}
+
+
+def adv_names():
+    from harness.props import c01_tadvan as T
+    n = ct.Names()
+    def put(name, i):
+        n.ids[name] = i
+        n.rev[i] = name
+    for name, i in T.SYM_ID.items():
+        put(name, i)
+    for name, i in T.AMOUNTS.items():
+        put(f'A_{name}(t)', i)
+    put('SC', 140)
+    put('S0', 150)
+    for k in range(1, 6):
+        put(f'S{k}', 140 + k)
+        put(f'ALAG{k}', 150 + k)
+        put(f'F{k}', 160 + k)
+    n.next = 200
+    return n
+
+
+def gen_stream_spec(rng, a, ti):
+    from harness.props import c01_tadvan as T
+    ins = T.INPUTS[(a, ti)]
+    n = NCOMP[a]
+    scale = rng.choice(['none', 'obs', 'obs', 'sc', 'other'])
+    spec = {'advan': a, 'trans': ti, 'eta_on': rng.randrange(len(ins)), 'scale': scale,
+            'alag': sorted(rng.sample(range(1, n + 1), rng.choice([0, 0, 1]) if n >= 1 else 0)),
+            'bio': sorted(rng.sample(range(1, n + 1), rng.choice([0, 0, 1]))),
+            'explicit_trans': not (ti == 1 and rng.random() < 0.5), 'order': rng.random()}
+    return spec
+
+
+def stream_text(spec):
+    from harness.props import c01_tadvan as T
+    a, ti = spec['advan'], spec['trans']
+    ins = list(T.INPUTS[(a, ti)])
+    rng = random.Random(f"stream-{spec['order']}")
+    lines, th = [], 0
+    order = list(ins)
+    rng.shuffle(order)
+    for k, name in enumerate(order):
+        th += 1
+        if ins.index(name) == spec['eta_on']:
+            lines.append(f'TV{name} = THETA({th})')
+            lines.append(f'{name} = TV{name}*EXP(ETA(1))')
+        else:
+            lines.append(f'{name} = THETA({th})')
+    n = NCOMP[a]
+    obs = OBSNO[a]
+    vol = next((v for v in ('V', f'V{obs}', 'V1', 'V2') if v in ins), None)
+    def rhs():
+        nonlocal th
+        if vol and rng.random() < 0.6:
+            return vol
+        th += 1
+        return f'THETA({th})'
+    if spec['scale'] == 'obs':
+        lines.append(f'S{obs} = {rhs()}')
+    elif spec['scale'] == 'sc':
+        lines.append(f'SC = {rhs()}')
+    elif spec['scale'] == 'other':
+        other = [k for k in range(1, n + 1) if k != obs]
+        if other:
+            lines.append(f'S{other[0]} = {rhs()}')
+    for k in spec['alag']:
+        th += 1
+        lines.append(f'ALAG{k} = THETA({th})')
+    for k in spec['bio']:
+        th += 1
+        lines.append(f'F{k} = THETA({th})')
+    sub = f"$SUBROUTINE {ADVAN_NAME[a]}" + (f" TRANS{ti}" if spec['explicit_trans'] else '')
+    txt = ("$PROBLEM c01\n$INPUT ID TIME AMT DV\n$DATA c01.csv IGNORE=@\n" + sub + "\n$PK\n" + '\n'.join(lines)
+           + "\n$ERROR\nY = F + EPS(1)\n" + ''.join(f'$THETA {k + 1}\n' for k in range(th)) + "$OMEGA 0.1\n$SIGMA 1\n")
+    return txt, th
+
+
+def observe_stream(spec, prng, mutate=None):
+    from pharmpy.model import Assignment, output
+    from pharmpy.modeling import read_model_from_string
+    names = adv_names()
+    txt, nth = stream_text(spec)
+    model = read_model_from_string(txt)
+    sts = model.statements
+    cs = sts.ode_system
+    pk = [f"(Assign {names.p(str(sc.to_sympy(st.symbol)))} {sc.expr(st.expression, names)})" for st in sts.before_odes]
+    cmap = model.internals.compartment_map
+    comps = [cs.find_compartment(nm) for nm in cs.compartment_names]
+    flows = []
+    for c1 in comps:
+        for c2 in comps + [output]:
+            fl = cs.get_flow(c1, c2)
+            if fl != 0:
+                to = 0 if c2 is output else cmap[c2.name]
+                flows.append(f"({ct.nat(cmap[c1.name])}, {ct.nat(to)}, {sc.expr(fl, names)})")
+    if mutate:
+        flows = mutate(flows)
+    amap = ct.lst([f"({k}, {ct.nat(v)})" for k, v in cmap.items()])
+    dosecomps = ct.lst([ct.nat(cmap[c.name]) for c in comps if len(c.doses) > 0])
+    lag = ct.lst([f"({ct.nat(cmap[c.name])}, {sc.expr(c.lag_time, names)})" for c in comps])
+    bio = ct.lst([f"({ct.nat(cmap[c.name])}, {sc.expr(c.bioavailability, names)})" for c in comps])
+    fst = [st for st in sts.after_odes if isinstance(st, Assignment) and str(st.symbol) == 'F']
+    if len(fst) != 1:
+        raise sc.Unconvertible('no single F link statement')
+    leaves = [f'THETA_{k + 1}' for k in range(nth)] + ['ETA_1', 'EPS_1', 't', 'AMT'] + [f'A_{c.name}(t)' for c in comps]
+    pts = []
+    for _ in range(5):
+        p = {n: prng.choice([F(1), F(2), F(3), F(5), F(7), F(1, 2), F(4), F(3, 2)]) for n in leaves}
+        p['ETA_1'] = prng.choice([F(0), F(1), F(2), F(-1)])
+        pts.append(p)
+    envs = ct.lst([sc.env(p, names) for p in pts])
+    term = (f"(mkACase {spec['advan']} T{spec['trans']} {ct.lst(pk)}\n  {ct.lst(flows)}\n  {amap} {dosecomps}\n  {lag}\n  {bio}\n  "
+            f"{sc.expr(fst[0].expression, names)}\n  {envs})")
+    return term, {'text': txt}
+
+
+ADV_TAGS = {41: 'flows of the compartmental system differ from NONMEM\'s ADVAN/TRANS definition',
+            42: 'compartment numbering or dose compartment differs from NONMEM\'s ADVAN definition',
+            43: 'observation scaling F = A/S differs (Sn of the observation compartment, else SC for central, else none)',
+            44: 'lag time / bioavailability of a compartment is not ALAGn / Fn of its NONMEM number'}
+
+
+def run_stream_specs(ctx, specs, label, mutate=None):
+    terms, kept, infos = [], [], []
+    prng = random.Random(f'{ctx.seed}-{label}-pts')
+    for spec in specs:
+        try:
+            term, info = observe_stream(spec, prng, mutate)
+        except sc.Unconvertible as e:
+            ctx.coverage['skipped_unconvertible'] = ctx.coverage.get('skipped_unconvertible', 0) + 1
+            continue
+        terms.append(term)
+        kept.append(spec)
+        infos.append(info)
+    verdicts = ctx.run_cases(label, ADV_IMPORTS, 'acase', terms, 'verdict_adv', shard=30) if terms else []
+    return kept, verdicts, infos
+
+
+def probe_stream(ctx, w, label):
+    kept, verdicts, infos = run_stream_specs(ctx, [w], label)
+    return set(verdicts[0]) if verdicts else set()
+
+
+FINDING_KINDS['stream'] = probe_stream
+
+
+def run_streams(ctx):
+    from harness.props import c01_tadvan as T
+    reps = 2 if ctx.tier == 'quick' else 12
+    specs = [json.loads(p.read_text()) for p in sorted((VERIF / 'regress' / 'C01').glob('stream-*.json'))]
+    for a in sorted(T.VALID, key=lambda x: int(x[1:])):
+        for ti in T.VALID[a]:
+            for _ in range(reps):
+                specs.append(gen_stream_spec(ctx.rng, a, ti))
+    kept, verdicts, infos = run_stream_specs(ctx, specs, 'streams')
+    stats = {'ok': 0, 'known': 0, 'violation': 0}
+    for spec, tags, info in zip(kept, verdicts, infos):
+        tags = set(tags)
+        bad = sorted(t for t in tags if t in ADV_TAGS)
+        if not bad:
+            stats['ok'] += 1
+        elif bad == [41] and 241 in tags and ctx.open_finding(TRANS56):
+            stats['known'] += 1
+            ctx.coverage.setdefault('known_hits', {}).setdefault(TRANS56, 0)
+            ctx.coverage['known_hits'][TRANS56] += 1
+        else:
+            stats['violation'] += 1
+            for t in bad:
+                ctx.violation(ADV_TAGS[t], {'kind': 'stream', 'spec': spec, 'control_stream': info['text'], 'tags': sorted(tags)})
+    cov = ctx.coverage
+    cov['stream_cases'] = len(kept)
+    cov['stream_status'] = stats
+    cov['evaluations'] += 5 * len(kept) * 4
+    cov['distinct_nontrivial'] += len({i['text'] for i in infos})
+    cov.setdefault('input_distribution', {})['streams'] = {
+        'pairs': sorted({f"{s['advan']}/T{s['trans']}" for s in kept}),
+        'scale': {k: sum(1 for s in kept if s['scale'] == k) for k in ('none', 'obs', 'sc', 'other')},
+        'with_alag': sum(1 for s in kept if s['alag']), 'with_bio': sum(1 for s in kept if s['bio']),
+        'default_trans': sum(1 for s in kept if not s['explicit_trans']),
+        'inconclusive': sum(1 for v in verdicts if 1041 in v),
+    }
+    cov['samples'] += [{'control_stream': infos[0]['text'], 'tags': verdicts[0]}] if infos else []
+
+
+# ====================================================================================================
+# _find_rates
+# ====================================================================================================
+def real_find_rate(name, ncomps):
+    from pharmpy.basic import Expr
+    from pharmpy.model import Assignment, ModelSyntaxError
+    from pharmpy.model.external.nonmem import advan as adv
+
+    class Rec:
+        statements = [Assignment.create(Expr.symbol(name), Expr.integer(1))]
+
+    class CS:
+        def get_records(self, what):
+            assert what == 'PK'
+            return [Rec()]
+    try:
+        r = list(adv._find_rates(CS(), ncomps))
+    except ModelSyntaxError:
+        return 'RAmbiguous'
+    except ValueError:
+        return 'RError'
+    if not r:
+        return 'RSkip'
+    assert len(r) == 1 and str(r[0][2]) == name
+    return f'(RFlow {ct.nat(r[0][0])} {ct.nat(r[0][1])})'
+
+
+def run_rates(ctx, mutate=None):
+    rng = ctx.rng
+    cases, specs = [], []
+    n = 400 if ctx.tier == 'quick' else 4000
+    for _ in range(n):
+        ncomps = rng.choice([2, 3, 5, 9, 10, 11, 12, 15, 20, 25, 99])
+        if rng.random() < 0.25:
+            f, t = rng.randrange(0, 30), rng.randrange(0, 30)
+            name, term = f'K{f}T{t}', f'(RT {ct.nat(f)} {ct.nat(t)})'
+        else:
+            digits = [rng.randrange(10) for _ in range(rng.choice([1, 2, 2, 3, 3, 3, 4, 4, 5]))]
+            name, term = 'K' + ''.join(map(str, digits)), '(RPlain ' + ct.lst([ct.nat(d) for d in digits]) + ')'
+        res = real_find_rate(name, ncomps)
+        if mutate:
+            res = mutate(res)
+        cases.append(f'({term}, {ct.nat(ncomps)}, {res})')
+        specs.append((name, ncomps, res))
+    verdicts = ctx.run_cases('rates', IMPORTS, 'rate_name * nat * rate_res', cases, 'verdict_rate', shard=400)
+    badn = 0
+    for (name, ncomps, res), v in zip(specs, verdicts):
+        if 51 in v:
+            badn += 1
+            if badn <= 3:
+                ctx.broken.append(f'correspondence C01 find_rate vs advan._find_rates: {name} with {ncomps} compartments gave {res}')
+    ctx.coverage['rate_cases'] = len(cases)
+    ctx.coverage['evaluations'] += len(cases)
+    ctx.coverage.setdefault('input_distribution', {})['rates'] = {
+        'results': {k: sum(1 for s in specs if s[2].startswith(k) or s[2].startswith('(' + k)) for k in ('RFlow', 'RSkip', 'RAmbiguous', 'RError')}}
+
+
+# ====================================================================================================
+# parameter records: $THETA / $OMEGA / $SIGMA against a reference reading of the generated record
+# ====================================================================================================
+PNUMS = ['0.1', '0.5', '1', '2', '1.5', '0.25', '3', '1E-2', '10', '0.3', '4.0']
+
+
+def gen_theta_item(rng):
+    init = rng.choice(PNUMS)
+    lo = rng.choice(['0', '-1', '1E-3', '-5', '-INF', '-1000000'])
+    up = rng.choice(['20', '100', '1E3', 'INF', '1000000'])
+    form = rng.choice(['bare', 'bare', 'barefix', 'p1', 'p2', 'p3', 'p3', 'p3fix', 'p1fix', 'p3xn', 'p1xn', 'allsame'])
+    it = {'form': form, 'init': init, 'lo': lo, 'up': up, 'n': rng.choice([2, 3]),
+          'name': rng.choice([None, None, 'CL', 'V', 'KA', 'TVQ'])}
+    return it
+
+
+def theta_text_expected(it):
+    init, lo, up, n = it['init'], it['lo'], it['up'], 1
+    fix = False
+    f = it['form']
+    L = None if lo in ('-INF', '-1000000') else F(lo)
+    U = None if up in ('INF', '1000000') else F(up)
+    if f == 'bare':
+        t, L, U = init, None, None
+    elif f == 'barefix':
+        t, L, U, fix = init + ' FIX', None, None, True
+    elif f == 'p1':
+        t, L, U = f'({init})', None, None
+    elif f == 'p1fix':
+        t, L, U, fix = f'({init} FIXED)', None, None, True
+    elif f == 'p2':
+        t, U = f'({lo},{init})', None
+    elif f == 'p3':
+        t = f'({lo}, {init}, {up})'
+    elif f == 'p3fix':
+        t, fix = f'({lo},{init},{up}) FIX', True
+    elif f == 'p3xn':
+        n = it['n']
+        t = f'({lo},{init},{up})x{n}'
+    elif f == 'p1xn':
+        n = it['n']
+        t, L, U = f'({init})x{n}', None, None
+    else:  # low = init = up: implicitly fixed
+        t, L, U, fix = f'({init},{init},{init})', F(init.replace('E', 'e')), F(init.replace('E', 'e')), True
+    return t, [(F(init), L, U, fix)] * n
+
+
+def gen_cov_record(rng, first):
+    r = rng.random()
+    if r < 0.45:
+        items = []
+        for _ in range(rng.choice([1, 1, 2, 3])):
+            it = {'v': rng.choice(PNUMS[:8]), 'form': rng.choice(['bare', 'bare', 'fix', 'xn', 'sd', 'var'])}
+            if it['form'] == 'sd':       # the square is computed in floating point: keep it exact (dyadic values)
+                it['v'] = rng.choice(['0.5', '2', '0.25', '1.5', '1', '3'])
+            items.append(it)
+        return {'kind': 'diag', 'items': items, 'header': rng.choice(['', '', 'DIAGONAL'])}
+    if r < 0.85 or first:
+        n = rng.choice([1, 2, 2, 3])
+        vals = []
+        for i in range(n):
+            for j in range(i + 1):
+                vals.append(rng.choice(['0.5', '1', '2', '0.25']) if i == j else rng.choice(['0.01', '0.05', '-0.01', '0.1']))
+        return {'kind': 'block', 'n': n, 'vals': vals, 'fix': rng.random() < 0.25}
+    return {'kind': 'same'}
+
+
+def cov_text_expected(recs, rec_name):
+    lines, blocks = [], []
+    prev = None
+    for r in recs:
+        if r['kind'] == 'diag':
+            toks = []
+            for it in r['items']:
+                v = F(it['v'])
+                if it['form'] == 'bare':
+                    toks.append(it['v']); blocks.append((1, [(v, False)]))
+                elif it['form'] == 'fix':
+                    toks.append(f"({it['v']} FIX)"); blocks.append((1, [(v, True)]))
+                elif it['form'] == 'xn':
+                    toks.append(f"({it['v']})x2"); blocks += [(1, [(v, False)])] * 2
+                elif it['form'] == 'sd':
+                    toks.append(f"({it['v']} SD)"); blocks.append((1, [(v * v, False)]))
+                else:
+                    toks.append(f"(VAR {it['v']})"); blocks.append((1, [(v, False)]))
+            head = f"DIAGONAL({len(blocks_count(r))}) " if r['header'] else ''
+            lines.append(f"${rec_name} {head}" + ' '.join(toks))
+            prev = blocks[-1]
+        elif r['kind'] == 'block':
+            b = (r['n'], [(F(v), r['fix']) for v in r['vals']])
+            lines.append(f"${rec_name} BLOCK({r['n']})" + (' FIX' if r['fix'] else '') + ' ' + ' '.join(r['vals']))
+            blocks.append(b)
+            prev = b
+        else:
+            m = r.get('m')
+            lines.append(f"${rec_name} BLOCK({prev[0]}) SAME" + (f'({m})' if m else ''))
+            blocks += [prev] * (m or 1)
+    return lines, blocks
+
+
+def blocks_count(r):
+    return [1 for it in r['items'] for _ in range(2 if it['form'] == 'xn' else 1)]
+
+
+def gen_param_spec(rng):
+    thetas = [gen_theta_item(rng) for _ in range(rng.choice([1, 2, 3, 4]))]
+    om, prev_block = [], False
+    for k in range(rng.choice([1, 2, 3])):
+        r = gen_cov_record(rng, first=not prev_block)
+        prev_block = r['kind'] in ('block', 'same')
+        om.append(r)
+    si = [gen_cov_record(rng, first=True) for _ in range(rng.choice([1, 1, 2]))]
+    si = [r for r in si if r['kind'] != 'same']
+    return {'theta': thetas, 'omega': om, 'sigma': si}
+
+
+def param_text(spec):
+    tl, texp = [], []
+    for it in spec['theta']:
+        t, e = theta_text_expected(it)
+        tl.append('$THETA ' + t + (f" ; {it['name']}" if it.get('name') else ''))
+        texp += e
+    ol, oexp = cov_text_expected(spec['omega'], 'OMEGA')
+    sl, sexp = cov_text_expected(spec['sigma'], 'SIGMA')
+    txt = ("$PROBLEM c01\n$INPUT ID TIME DV WGT APGR\n$DATA c01.csv IGNORE=@\n$PRED\nY = THETA(1) + ETA(1) + EPS(1)\n"
+           + '\n'.join(tl + ol + sl) + '\n')
+    return txt, texp, oexp, sexp
+
+
+def fq(x):
+    return F(repr(float(x)))
+
+
+def pval_term(t):
+    i, l, u, f = t
+    return ct.tup(ct.q(i), ct.opt(None if l is None else ct.q(l)), ct.opt(None if u is None else ct.q(u)), ct.boolean(f))
+
+
+def cblock_term(b):
+    return ct.pair(ct.nat(b[0]), ct.lst([ct.pair(ct.q(v), ct.boolean(f)) for v, f in b[1]]))
+
+
+def observe_params(spec, mutate=None):
+    import math
+    from pharmpy.modeling import read_model_from_string
+    txt, texp, oexp, sexp = param_text(spec)
+    try:
+        model = read_model_from_string(txt)
+    except Exception as e:
+        raise Refused(f'{type(e).__name__}: {str(e)[:120]}')
+    pars = model.parameters
+    rvs = model.random_variables
+    cov_names = set()
+    obs = {'ETA': [], 'EPS': []}
+    for dist in rvs:
+        n = len(dist.names)
+        kind = 'EPS' if str(dist.level).upper() == 'RUV' else 'ETA'
+        cells = []
+        if n == 1:
+            sym = str(dist.variance)
+            cells.append((fq(pars[sym].init), pars[sym].fix))
+            cov_names.add(sym)
+        else:
+            var = dist.variance
+            for i in range(n):
+                for j in range(i + 1):
+                    sym = str(var[i, j])
+                    cells.append((fq(pars[sym].init), pars[sym].fix))
+                    cov_names.add(sym)
+        obs[kind].append((n, cells))
+    tobs = []
+    for p in pars:
+        if p.name in cov_names:
+            continue
+        tobs.append((fq(p.init), None if math.isinf(p.lower) else fq(p.lower), None if math.isinf(p.upper) else fq(p.upper), p.fix))
+    if mutate:
+        tobs = mutate(tobs)
+    term = ("(mkPCase " + ct.lst([pval_term(t) for t in texp]) + "\n  " + ct.lst([pval_term(t) for t in tobs]) + "\n  "
+            + ct.lst([cblock_term(b) for b in oexp]) + "\n  " + ct.lst([cblock_term(b) for b in obs['ETA']]) + "\n  "
+            + ct.lst([cblock_term(b) for b in sexp]) + "\n  " + ct.lst([cblock_term(b) for b in obs['EPS']]) + ")")
+    return term, {'text': txt, 'n': len(texp) + sum(len(b[1]) for b in oexp + sexp), 'model': model}
+
+
+def observe_blocks(model, rec_name, mutate=None):
+    """The real OmegaRecord.parse() blocks of the model's control stream, and what the real
+    parameters_from_blocks / rvs_from_blocks make of them."""
+    from pharmpy.model import ModelSyntaxError
+    from pharmpy.model.external.nonmem import parsing
+    blocks = parsing.parse_omegas_sigmas(model.internals.control_stream, rec_name)
+    bterms = []
+    for names, inits, fix, same in blocks:
+        if same:
+            bterms.append('(mkOB [] false true)')
+        else:
+            bterms.append(f"(mkOB {ct.lst([ct.q(fq(v)) for v in inits])} {ct.boolean(bool(fix))} false)")
+    rvtype = 'ETA' if rec_name == 'OMEGA' else 'EPS'
+    try:
+        pars, _ = parsing.parameters_from_blocks(blocks, set(), rec_name)
+    except ModelSyntaxError:
+        return f"(mkBCase {ct.boolean(rvtype == 'EPS')} {ct.lst(bterms)} None [])", len(blocks)
+    pterms, index = [], {}
+    for k, p in enumerate(pars):
+        m = re.fullmatch(rec_name + r'_(\d+)_(\d+)', p.name)
+        pterms.append(f"(mkOP {ct.nat(int(m.group(1)))} {ct.nat(int(m.group(2)))} {ct.q(fq(p.init))} {ct.boolean(p.fix)})")
+        index[p.name] = k
+    if mutate:
+        pterms = mutate(pterms)
+    rvs, _ = parsing.rvs_from_blocks({}, blocks, pars, rvtype)
+    rterms = []
+    for dist in rvs:
+        etas = [int(re.fullmatch(rvtype + r'_(\d+)', nm).group(1)) for nm in dist.names]
+        n = len(etas)
+        if n == 1:
+            cov = [index[str(dist.variance)]]
+        else:
+            cov = [index[str(dist.variance[i, j])] for i in range(n) for j in range(i + 1)]
+        rterms.append(f"(mkRV {ct.lst([ct.nat(e) for e in etas])} {str(dist.level).upper()} {ct.lst([ct.nat(c) for c in cov])})")
+    return (f"(mkBCase {ct.boolean(rvtype == 'EPS')} {ct.lst(bterms)} (Some {ct.lst(pterms)}) {ct.lst(rterms)})", len(blocks))
+
+
+def run_blocks(ctx, models, mutate=None):
+    terms = []
+    nb = 0
+    for model in models:
+        for rec in ('OMEGA', 'SIGMA'):
+            t, k = observe_blocks(model, rec, mutate)
+            terms.append(t)
+            nb += k
+    verdicts = ctx.run_cases('blocks', IMPORTS, 'bcase', terms, 'verdict_blocks', shard=150) if terms else []
+    bad = [v for v in verdicts if 71 in v or 72 in v]
+    if bad:
+        ctx.broken.append(f'correspondence C01 parameters_from_blocks / rvs_from_blocks vs parsing.py: {len(bad)} of {len(terms)} '
+                          f'records disagree (tags {sorted({t for v in bad for t in v})})')
+    ctx.coverage['block_cases'] = len(terms)
+    ctx.coverage['evaluations'] += nb
+
+
+PARAM_TAGS = {61: 'a THETA read from the record differs from the record text (initial value, bounds, fixedness or count)',
+              62: 'the OMEGA/SIGMA structure read differs from the record text (block sizes, initial values, fixedness)'}
+SAME_M = 'C01-OMEGA-SAME-M'
+
+
+def run_param_specs(ctx, specs, label, mutate=None):
+    terms, kept, infos, refused = [], [], [], 0
+    for spec in specs:
+        try:
+            term, info = observe_params(spec, mutate)
+        except Refused as e:
+            refused += 1
+            ctx.coverage.setdefault('refused_samples', [])
+            if len(ctx.coverage['refused_samples']) < 3:
+                ctx.coverage['refused_samples'].append({'code': param_text(spec)[0], 'error': str(e)})
+            continue
+        terms.append(term)
+        kept.append(spec)
+        infos.append(info)
+    verdicts = ctx.run_cases(label, IMPORTS, 'pcase', terms, 'verdict_params', shard=100) if terms else []
+    return kept, verdicts, infos, refused
+
+
+def probe_params(ctx, w, label):
+    kept, verdicts, infos, refused = run_param_specs(ctx, [w], label)
+    return set(verdicts[0]) if verdicts else set()
+
+
+def probe_refuse(ctx, w, label):
+    """tag 31: the reader raises on this (documented) input"""
+    from pharmpy.modeling import read_model_from_string
+    try:
+        read_model_from_string(w['text'])
+    except Exception as e:
+        if w.get('error') is None or w['error'] in f'{type(e).__name__}: {e}':
+            return {31}
+        return {32}
+    return set()
+
+
+FINDING_KINDS['params'] = probe_params
+FINDING_KINDS['refuse'] = probe_refuse
+
+
+def run_params(ctx):
+    n = 150 if ctx.tier == 'quick' else 2000
+    specs = [json.loads(p.read_text()) for p in sorted((VERIF / 'regress' / 'C01').glob('params-*.json'))]
+    specs += [gen_param_spec(ctx.rng) for _ in range(n)]
+    kept, verdicts, infos, refused = run_param_specs(ctx, specs, 'params')
+    run_blocks(ctx, [i['model'] for i in infos])
+    stats = {'ok': 0, 'known': 0, 'violation': 0}
+    for spec, tags, info in zip(kept, verdicts, infos):
+        bad = sorted(t for t in tags if t in PARAM_TAGS)
+        if not bad:
+            stats['ok'] += 1
+        elif bad == [62] and any(r.get('m') for r in spec['omega']) and ctx.open_finding(SAME_M):
+            stats['known'] += 1
+        else:
+            stats['violation'] += 1
+            for t in bad:
+                ctx.violation(PARAM_TAGS[t], {'kind': 'params', 'spec': spec, 'control_stream': info['text'], 'tags': sorted(tags)})
+    cov = ctx.coverage
+    cov['param_cases'] = len(kept)
+    cov['param_status'] = stats
+    cov['refused_by_reader'] = cov.get('refused_by_reader', 0) + refused
+    cov['evaluations'] += sum(i['n'] for i in infos)
+    cov['distinct_nontrivial'] += len({i['text'] for i in infos})
+    cov.setdefault('input_distribution', {})['params'] = {
+        'theta_forms': {f: sum(1 for s in kept for it in s['theta'] if it['form'] == f)
+                        for f in ('bare', 'barefix', 'p1', 'p1fix', 'p2', 'p3', 'p3fix', 'p3xn', 'p1xn', 'allsame')},
+        'omega_kinds': {k: sum(1 for s in kept for r in s['omega'] + s['sigma'] if r['kind'] == k) for k in ('diag', 'block', 'same')},
+        'named_thetas': sum(1 for s in kept for it in s['theta'] if it.get('name')),
+    }
 
 
 def run(ctx):
@@ -684,7 +1397,11 @@ def run(ctx):
                                             'src/pharmpy/model/external/nonmem/advan.py',
                                             'src/pharmpy/model/external/nonmem/parsing.py')
     finding_probes(ctx)
+    run_advan(ctx)
     run_code(ctx)
+    run_streams(ctx)
+    run_rates(ctx)
+    run_params(ctx)
     ctx.coverage['rule'] = ('abbreviated code: random programs (<= 14 statements, nesting <= 2, 8 program symbols, '
                             'THETA/ETA/data leaves, intrinsic + protected functions, layout noise) from VERIF_SEED; '
                             'non-trivial = at least 3 statements; distinct by printed text')
@@ -692,6 +1409,26 @@ def run(ctx):
 
 def replay(ctx, rep):
     kind = rep.get('kind', 'code')
+    if kind in ('advan-table', 'advan-struct'):
+        run_advan(ctx)
+        print('violations', [v['what'] for v in ctx.violations], 'broken', ctx.broken)
+        return 1 if ctx.violations or ctx.broken else 0
+    if kind not in FINDING_KINDS:
+        print('nothing to replay:', rep.get('what'))
+        return 1
+    if kind == 'code':
+        spec = rep.get('spec', rep)
+        kept, verdicts, infos, skipped = run_specs(ctx, [spec], 'replay')
+        if not verdicts:
+            print('not readable any more:', skipped)
+            return 1
+        print('code:\n' + infos[0]['code'])
+        status = classify(ctx, spec, verdicts[0], infos[0])
+        print('tags', verdicts[0], 'status', status)
+        return 1 if status in ('violation', 'broken') else 0
     tags = FINDING_KINDS[kind](ctx, rep.get('spec', rep), 'replay')
-    print('tags', sorted(tags), [TAGS.get(t, t) for t in sorted(tags)])
-    return 1 if any(t in tags for t in (1, 2, 11, 21)) else 0
+    if kind == 'stream' and 241 in tags and ctx.open_finding(TRANS56):
+        tags = tags - {41}
+    allt = {**TAGS, **ADV_TAGS, **PARAM_TAGS}
+    print('tags', sorted(tags), [allt.get(t, t) for t in sorted(tags)])
+    return 1 if any(t in tags for t in (1, 2, 11, 21, 31, 41, 42, 43, 44, 61, 62)) else 0
